@@ -7,6 +7,7 @@ from __future__ import annotations
 ABI = {"IN_ACCESS": 0x1, "IN_MODIFY": 0x2, "IN_ATTRIB": 0x4, "IN_CLOSE_WRITE": 0x8, "IN_CLOSE_NOWRITE": 0x10, "IN_OPEN": 0x20, "IN_MOVED_FROM": 0x40, "IN_MOVED_TO": 0x80,
        "IN_CREATE": 0x100, "IN_DELETE": 0x200, "IN_DELETE_SELF": 0x400, "IN_MOVE_SELF": 0x800, "IN_UNMOUNT": 0x2000, "IN_Q_OVERFLOW": 0x4000, "IN_IGNORED": 0x8000, "IN_ISDIR": 0x40000000}
 KINDS = [k for k in ABI if k != "IN_ISDIR"]
+SPECIAL = {"IN_DONT_FOLLOW": 0x02000000}   # flags of inotify_add_watch that are not event bits
 # the bits the library may ask the kernel for (user-space event bits)
 REQUESTABLE = ["IN_MODIFY", "IN_ATTRIB", "IN_CLOSE_WRITE", "IN_CLOSE_NOWRITE", "IN_OPEN", "IN_MOVED_FROM", "IN_MOVED_TO", "IN_CREATE", "IN_DELETE", "IN_DELETE_SELF"]
 
